@@ -1,7 +1,11 @@
 import GrVerif.Props.C13
+import GrVerif.Props.C13Eq
 open GrVerif.Props.C13
 #print axioms check12_facts
 #print axioms lookup12_in_bounds
 #print axioms check4_facts
 #print axioms lookup4_in_bounds
 #print axioms direct_lookup4_in_bounds
+#print axioms cached_lookup_is_direct_lookup
+#print axioms cached_cmap_is_built_and_agrees
+#print axioms next_codepoint_is_next_in_range
